@@ -70,7 +70,14 @@ def filter_twin_rules(ctx: Ctx, rid_equiv: str, rid_sig: str, rid_reg: str) -> N
         else:
             # reviewed-different: minimal structural obligations
             s = ast.unparse(af)
-            ok = "rv = start" in s and "return rv" in s and "make_attrgetter(environment, attribute)" in s and "auto_aiter(iterable)" in s
+            # the accumulator is whatever local is returned (any name)
+            rets_ = [r_ for r_ in ast.walk(af) if isinstance(r_, ast.Return) and isinstance(r_.value, ast.Name)]
+            from_start = {a_.targets[0].id for a_ in ast.walk(af) if isinstance(a_, ast.Assign) and len(a_.targets) == 1 and isinstance(a_.targets[0], ast.Name) and ast.unparse(a_.value) == "start"}
+            acc = next((r_.value.id for r_ in rets_ if r_.value.id in from_start), None)  # type: ignore[union-attr]
+            starts = [a_ for a_ in ast.walk(af) if isinstance(a_, ast.Assign) and len(a_.targets) == 1 and isinstance(a_.targets[0], ast.Name) and a_.targets[0].id == acc and ast.unparse(a_.value) == "start"]
+            loops_ = [l_ for l_ in ast.walk(af) if isinstance(l_, ast.AsyncFor) and ast.unparse(l_.iter) == "auto_aiter(iterable)"]
+            adds = [a_ for l_ in loops_ for a_ in ast.walk(l_) if (isinstance(a_, ast.Assign) and isinstance(a_.targets[0], ast.Name) and a_.targets[0].id == acc and isinstance(a_.value, ast.BinOp) and isinstance(a_.value.op, ast.Add) and ast.unparse(a_.value.left) == acc) or (isinstance(a_, ast.AugAssign) and isinstance(a_.op, ast.Add) and ast.unparse(a_.target) == acc)]
+            ok = acc is not None and len(starts) == 1 and len(loops_) == 1 and len(adds) == 1 and "make_attrgetter(environment, attribute)" in s
             ctx.check(ok, f"{an}:reviewed", f"filters:{an}", "reviewed-different twin changed shape", f"{an} ({mode}) no longer starts from `start`, adds every (attribute of every) item and returns the accumulator", f"{m.rel}:{af.lineno}")
     for helper_s, helper_a in (("select_or_reject", "async_select_or_reject"),):
         ok, diff = body_same(m.defs[helper_s], m.defs[helper_a])
